@@ -159,7 +159,9 @@ func BuildsimOpt(repo string, raceIfConcurrent bool) (*Scratch, error) {
 	if err != nil {
 		return s, fmt.Errorf("instrumenting runtime module: %w", err)
 	}
-	s.RepoRep, err = instr.Run(instr.Options{Dir: s.Repo, MapRange: true, World: true, RenameMain: "origMain", Env: GoEnv()})
+	// goroutines the tool itself starts (worker pools, background formatting) run as tasks of the seeded
+	// scheduler: its sync primitives and channel operations are rewritten like those of generated containers
+	s.RepoRep, err = instr.Run(instr.Options{Dir: s.Repo, MapRange: true, World: true, Sync: true, Conc: true, RenameMain: "origMain", Env: GoEnv()})
 	if err != nil {
 		return s, fmt.Errorf("instrumenting working tree: %w", err)
 	}
